@@ -2,7 +2,8 @@
     configuration.  Statements and [Print Assumptions] only. *)
 From WG Require Import Base.Prelude Codes.Codes Codes.Statements Codes.CodesFacts
   BV.Model BV.RefSel BV.Statements BV.CompFacts BV.NodeFacts BV.GraphFacts
-  BV.Bits BV.BitsFacts BV.SelStatements BV.GreedyFacts.
+  BV.Bits BV.BitsFacts BV.SelStatements BV.GreedyFacts BV.ZuckFacts
+  Flags.Props Flags.Statements Flags.PropsFacts.
 Local Open Scope N_scope.
 
 (** copy blocks reassemble the list, for any two lists *)
@@ -55,6 +56,23 @@ Proof.
   intros. apply graph_roundtrip_bits; auto. apply greedy_valid.
 Qed.
 Print Assumptions C01_greedy_roundtrip.
+
+(** ... and so is the Zuckerli-style compressor's, for every chunk size *)
+Theorem C01_zuck_roundtrip :
+  forall le cs p k g rest,
+  codes_ok cs = true -> Forall inc g ->
+  decode_graph bits (rd_bits le cs) p (length g)
+    (graph_bits le cs (encode_graph p 0 g (zuck_sel p cs k 0 g)) ++ rest) = Some (g, rest).
+Proof.
+  intros. apply graph_roundtrip_bits; auto. apply zuck_valid.
+Qed.
+Print Assumptions C01_zuck_roundtrip.
+
+(** a configuration is refused (no properties file) exactly when the format cannot
+    represent its codes; otherwise the written parameters parse back (C12) *)
+Theorem C01_refusal : S_props_refusal.
+Proof. exact props_refusal. Qed.
+Print Assumptions C01_refusal.
 
 (** non-vacuity: a concrete graph meets the hypotheses and the default codes are ok *)
 Example C01_nonvacuous :
